@@ -161,10 +161,10 @@ Rg(lo, hi, bits) == [lo |-> PtOf(lo), hi |-> PtOf(hi), bits |-> bits]
 KOf(fam) ==
   CASE fam \in {"factorial.table", "bernoulli.zero", "zeta.negzero"} -> 0
     [] fam \in {"bernoulli.exact"} -> 1
-    [] fam \in {"besseli.half", "zeta.sum", "gammap.rec", "logbesseli.rec", "gamma.dup", "gammad1.int", "gammap.int", "lgamma.log",
-                "digamma.rec", "gammad1.half", "lgamma.rec"} -> 128
-    [] fam \in {"logbesseli.half", "logbesseli.log", "gamma.rec", "gamma.refl"} -> 256
-    [] fam \in {"gammap.d1", "gammap.lowerp", "gammap.upperq"} -> 512
+    [] fam \in {"besseli.half", "zeta.sum", "gammap.rec", "logbesseli.rec", "gammad1.int", "gammap.int", "lgamma.log",
+                "digamma.rec", "gammad1.half", "besseli.bigx"} -> 128
+    [] fam \in {"logbesseli.half", "logbesseli.log", "gamma.rec", "gamma.refl", "gamma.dup", "lgamma.rec"} -> 256
+    [] fam \in {"gammap.d1", "gammap.lowerp", "gammap.upperq"} -> 1024
     [] OTHER -> 64
 
 (* ---------------------------------------------------------------- Factorial *)
@@ -589,7 +589,8 @@ LEL(x) == Lib("LogErfc", <<x>>)
 LogErfcSmallS == LET t == Log(SubR(One, Erf(X1))) IN
   SchemaRec("logerfc.small", KOf("logerfc.small"), 1, LEL(X1), t, Abs(t), Zero, << <<Rg(Dy(-1, 1), Dy(1, 1), 12)>> >>, <<>>)
 LogErfcSmallP == DySeq(<<0, 1, -1, 512, -512, 1048576, -1048576, 8388608, -8388608, 16777216, -16777216, 20971520, -20971520,
-                         21004288, -21004288, 21069824, -21069824, 22020096, -22020096, 33554432, -33554432, 67108864, -67108864>>, 27)
+                         21004288, -21004288, 21069824, -21069824, 22020096, -22020096, 33554432, -33554432, 50331648, -50331648, 58720256, -58720256,
+                         66060288, -66060288, 67108864, -67108864>>, 27)
 LogErfcMidS == LET t == Log(Erfc(X1)) IN
   SchemaRec("logerfc.erfc", KOf("logerfc.erfc"), 1, LEL(X1), t, Abs(t), Zero, << <<Rg(RInt(-6), RInt(26), 10)>> >>, <<>>)
 LogErfcMidP == DySeq(<<-6144, -5120, -2048, -1024, -512, 512, 1024, 2048, 4096, 6144, 7168, 7680, 8191, 8192, 8193, 8704, 9216, 10240, 16384,
@@ -633,10 +634,20 @@ LogBesHalfS(n) == SchemaRec(NameN("logbesseli.half", n + 5), KOf("logbesseli.hal
                             AddR(Abs(Log(Abs(BesHalfT(n)))), One), Zero,
                             << <<Rg(Dy(1, 4), RInt(20), 6)>>, <<Rg(RInt(20), RInt(700), 2)>>, <<Rg(RInt(700), RInt(100000), 0)>> >>, <<>>)
 BesHalfXs(n) ==                                   \* units of 1/64; the power series is used below x = v/4 = 8 (2n+1) / 64
-  <<4, 16, 32, 64, 127, 128, 129, 320, 496, 1280, 6400, 6464, 32000, 44800>> \o
+  <<4, 16, 32, 64, 127, 128, 129, 320, 496, 1280, 6400, 6464, 32000, 44800, 45120>> \o
   (IF n >= 0 THEN <<8 * (2 * n + 1) - 1, 8 * (2 * n + 1), 8 * (2 * n + 1) + 1>> ELSE <<>>)
 BesHalfP(n) == DySeq(BesHalfXs(n), 6)
-LogBesHalfP(n) == DySeq(BesHalfXs(n) \o <<45120, 45440, 46080, 64000, 448000, 640000, 1280000, 64000000>>, 6)
+(* 709 <= x < 714: I_v(x) is still finite but K_v(x) ~ sqrt(pi/(2x)) e^-x, which the implementation divides by (Wronskian), is a *)
+(* subnormal number with absolute error 2^-1075.  KNOWN DEVIATION besseli-subnormal-K (known_findings.d/C13.json): the result is   *)
+(* allowed the relative error 8 * 2^-1074 / K_v(x) on top of K; anything beyond that is still a violation.  v = 1/2 is exempt    *)
+(* (closed form in the code).                                                                                                  *)
+BesBigXs == <<RInt(709), RInt(710), RInt(711), RInt(712), RInt(713)>>
+BesBigNs == <<-3, -2, -1, 1, 2, 3, 4>>
+BesBig(n, x) == LET S == BesHalfS(n)
+                    c == InstCase(S, <<x>>, "x >= 709")
+                    kv == MulR(Sqrt(DivR(Pi, MulR(Two, Q(x)))), Exp(Neg(Q(x))))
+                IN [c EXCEPT !.fam = "besseli.bigx"] @@ [devid |-> "subnormal-K", dev |-> MulR(Abs(c.rhs), DivR(P2(-1071), kv))]
+LogBesHalfP(n) == DySeq(BesHalfXs(n) \o <<46080, 64000, 448000, 640000, 1280000, 64000000>>, 6)
 (* I is positive for order >= -1/2 ... the logarithm is the log of |I| only where I > 0: orders -1/2 and above here *)
 BV == X1
 BX == X2
